@@ -68,6 +68,7 @@ class World:
         self.pooled = "+pooled" in delivery  # use_pooling=True: every node gets a PooledClient
         delivery = delivery.split("+")[0]
         self.net = stacks.new_net(None, servers=())
+        self.net.tls_required = self.tls
         self.use_vpc = use_vpc
         self.delivery = delivery
         self.version = version
@@ -142,6 +143,11 @@ class World:
             P.append(("reconfigure-connects-to-nodes", f"{what} opened connections to {self.reconf_connects} "
                       f"(only the configuration endpoint needs to be contacted)"))
             self.reconf_connects = []
+        if self.tls and net.raw_io:
+            call, sid, what_io = net.raw_io[0]
+            P.append(("plaintext-io-despite-tls_context", f"{what}: {what_io} on socket {sid} (to {net.socks[sid].addr}) that was "
+                      f"never wrapped by the configured tls_context"))
+            net.raw_io.clear()
         if self.exc is not None or c is None:
             P.append(("discovery-raises", f"{what} raised {type(self.exc).__name__}: {self.exc}"
                       + (" (the reader waited for bytes that never come)" if self.blocked else "")))
